@@ -2,7 +2,9 @@ package main
 
 import (
 	"encoding/json"
+	"fmt"
 	"hash/maphash"
+	"reflect"
 
 	"github.com/google/jsonschema-go/jsonschema"
 )
@@ -10,7 +12,12 @@ import (
 func init() {
 	// equal {x, y}: jsonschema.Equal on two realised Go values.
 	register("equal", func(args json.RawMessage) (any, error) {
-		var a struct{ X, Y json.RawMessage }
+		var a struct {
+			X, Y json.RawMessage
+			// YPrefixOfX: y is not built from its descriptor but as x[:n] — the same backing array as x (aliased slices of
+			// different length are distinct JSON values); the descriptor of y still says what y holds, for the model
+			YPrefixOfX *int `json:"yPrefixOfX"`
+		}
 		if err := json.Unmarshal(args, &a); err != nil {
 			return nil, err
 		}
@@ -22,7 +29,14 @@ func init() {
 		if err != nil {
 			return nil, err
 		}
-		return map[string]any{"outcome": "ok", "equal": jsonschema.Equal(x, y)}, nil
+		if a.YPrefixOfX != nil {
+			xv := reflect.ValueOf(x)
+			if xv.Kind() != reflect.Slice || *a.YPrefixOfX > xv.Len() {
+				return nil, fmt.Errorf("yPrefixOfX: x is not a slice of that length")
+			}
+			y = xv.Slice(0, *a.YPrefixOfX).Interface()
+		}
+		return map[string]any{"outcome": "ok", "equal": jsonschema.Equal(x, y), "equal_rev": jsonschema.Equal(y, x)}, nil
 	})
 }
 
